@@ -239,6 +239,13 @@ def replay_follow(src, route, proto, container, opsrc, order, cause):
             + f"assert c != {cause!r}, ('the follow-up differs between original and restored object; attributed to', c)\n")
 
 
+def replay_follow_battery(src, route, proto, container, i, order, cause):
+    return (PRE + build_src(src, route, proto, container)
+            + "OPSRCS = " + repr([s_ for _n, s_ in OPS]) + "\n"
+            + f"c = attribute_battery(build, OPSRCS, {i}, {order!r}, globals())\n"
+            + f"assert c != {cause!r}, ('operation', OPSRCS[{i}], 'differs between original and restored object after the battery ran; attributed to', c)\n")
+
+
 def replay_state(src, route, proto, container, diff):
     return (PRE + build_src(src, route, proto, container)
             + "q, r = build()\nd = state_diff(q, r)\n"
@@ -316,12 +323,19 @@ def judge_job(job, src, res):
                 except Exception as e:  # noqa: BLE001
                     _MEMO[mk] = "attribution-raised:" + type(e).__name__
             c = _MEMO[mk]
+            rp = None
             if c is None:
-                # differs inside the battery (after the other operations ran), not on its own
-                c = "battery-only"
+                # differs only after the other operations of the battery ran (caches seeded by them):
+                # attribute by re-running the whole battery with one component repaired at a time
+                try:
+                    c = L.attribute_battery(build, [s_ for _n, s_ in OPS], i, order, env) or "battery-only"
+                except Exception as e:  # noqa: BLE001
+                    c = "attribution-raised:" + type(e).__name__
+                _MEMO[mk] = c
+                rp = replay_follow_battery(src, route, proto, container, i, order, c)
             fails.append((f"C11|{route}|{c}",
                           f"{tag}: {unit} ({family}): `{opsrc}` gives {short(oo[i])} on the original and {short(ro[i])} on the restored object ({order}); cause: {c}",
-                          dict(info, python=replay_follow(src, route, proto, container, opsrc, order, c), op=opsrc, order=order, state_diffs=diffs)))
+                          dict(info, python=rp or replay_follow(src, route, proto, container, opsrc, order, c), op=opsrc, order=order, state_diffs=diffs)))
             count("follow-differs:" + oc)
             break
         else:
@@ -598,7 +612,10 @@ def correspond(chk, tier, rng):
         L.clear_caches()
         for name in names:
             spec = MODEL_OPS[name]
-            if name.startswith("in_") and is_em(x.units):
+            if name.startswith("in_") and (is_em(x.units) or (where != "original" and fam in ("modified-default", "stale", "stale-quantity"))):
+                # EM units: C10's known rows.  A restored unit whose carried data disagrees with its
+                # registry: `get_base_equivalent` answers from the unit system's memo (process-wide,
+                # filled by earlier calls) — C10's memo model, direct oracle here
                 continue
             try:
                 fields = op_fields(spec, R)
